@@ -106,44 +106,50 @@ def run_check(check, tier, seed, replay=None):
             print('MACHINERY: deviation model %s/%s was expected to violate a property but TLC found nothing'
                   % (mr.spec, mr.name))
             return 2
-    # 2. executions of the real code
+    # 2. executions of the real code: one or more batches (trace spec, traces, metas)
     if replay:
         with open(replay) as fh:
             rep = json.load(fh)
-        traces, metas = [rep['trace']], [rep.get('meta', {})]
+        batches = [(rep.get('trace_spec', check.trace_spec), [rep['trace']], [rep.get('meta', {})])]
     else:
-        traces, metas = check.executions(tier, seed)
+        got = check.executions(tier, seed)
+        batches = got if isinstance(got, list) else [(check.trace_spec, got[0], got[1])]
     # 3. validation
-    val = tracecheck.validate(check.trace_spec, traces, check.enforced, known=set(known), name='%s-val' % prop,
-                              extra_consts=check.extra_consts)
-    states += val['states']
-    transitions += val['transitions']
+    traces, metas = [], []
     violations = []
     kf_hits = {}
-    for (i, res) in enumerate(val['results']):
-        if res['accepted']:
-            for name in res['kf']:
-                kf_hits.setdefault(name, []).append(i)
-        else:
-            violations.append(i)
-    for name in sorted(kf_hits):
-        print('KNOWN-FINDING: property=%s %s: %s (%d executions)' % (prop, name, known.get(name, ''), len(kf_hits[name])))
     rc = 0
     seen_clause_sets = set()
-    for i in violations:
-        res = val['results'][i]
-        key = tuple(res['clauses'])
-        path = os.path.join(REPLAY, '%s-%d.json' % (prop, len(seen_clause_sets)))
-        if key in seen_clause_sets:
-            continue
-        seen_clause_sets.add(key)
-        with open(path, 'w') as fh:
-            json.dump({'property': prop, 'failed_clauses': res['clauses'], 'matched_lines': res['reached'],
-                       'failing_event': res.get('failing_event'), 'meta': metas[i], 'trace': traces[i]}, fh)
-        print('VIOLATION property=%s replay=%s' % (prop, path))
-        print('  clause(s): %s; trace line %d of %d; produced by %s'
-              % (', '.join(res['clauses']) or '?', res['reached'] + 1, res['length'], json.dumps(metas[i])[:300]))
-        rc = 1
+    for (bi, (tspec, btraces, bmetas)) in enumerate(batches):
+        val = tracecheck.validate(tspec, btraces, check.enforced, known=set(known), name='%s-val%d' % (prop, bi),
+                                  extra_consts=check.extra_consts)
+        states += val['states']
+        transitions += val['transitions']
+        base = len(traces)
+        traces.extend(btraces)
+        metas.extend(bmetas)
+        for (i, res) in enumerate(val['results']):
+            if res['accepted']:
+                for name in res['kf']:
+                    kf_hits.setdefault(name, []).append(base + i)
+                continue
+            violations.append(base + i)
+            key = (tspec,) + tuple(res['clauses'])
+            if key in seen_clause_sets:
+                continue
+            path = os.path.join(REPLAY, '%s-%d.json' % (prop, len(seen_clause_sets)))
+            seen_clause_sets.add(key)
+            with open(path, 'w') as fh:
+                json.dump({'property': prop, 'trace_spec': tspec, 'failed_clauses': res['clauses'],
+                           'matched_lines': res['reached'], 'failing_event': res.get('failing_event'),
+                           'meta': bmetas[i], 'trace': btraces[i]}, fh)
+            print('VIOLATION property=%s replay=%s' % (prop, path))
+            print('  clause(s): %s; %s line %d of %d; produced by %s'
+                  % (', '.join(res['clauses']) or '?', tspec, res['reached'] + 1, res['length'],
+                     json.dumps(bmetas[i])[:300]))
+            rc = 1
+    for name in sorted(kf_hits):
+        print('KNOWN-FINDING: property=%s %s: %s (%d executions)' % (prop, name, known.get(name, ''), len(kf_hits[name])))
     # 4. evidence
     distinct = {}
     for (tr, me) in zip(traces, metas):
